@@ -15,19 +15,42 @@ import KiraModel.Proofs.SelfStoreLemmas
 namespace K
 open Hand Store
 
-/-- **exact capacity accounting.**  In every reachable state of a storage with capacity `cap > 0`
-    the reported count (`ResourceController::len`) equals
+/-- **capacity 0 gives the limit error.**  In every reachable state of a storage with capacity 0
+    nothing has ever been created (the store is the empty initial store, the count is 0, no
+    creation is in flight), a creation attempt (`try_reserve`) returns the limit error and changes
+    nothing, and no step of either thread panics.  (Before kira commit 9d3e102 the first
+    `try_reserve` indexed slot 0 of atomic-arena's empty slot vector and panicked; the arena
+    controller itself still would: `Controller.tryReserve`.) -/
+theorem C08_capacity_zero_limit {ar : Bool} {s : St} (h : Reachable ar 0 s) :
+    s.store = Store.new 0 ∧ s.store.len = 0 ∧ s.gpc = .idle
+    ∧ step ar s .gReserve = some (.ok s)
+    ∧ (∀ l e, step ar s l ≠ some (.error e))
+    ∧ (Controller.new 0).tryReserve = .error .indexOOB := by
+  have z := zero_reachable h
+  refine ⟨z.store, by rw [z.store]; rfl, z.gpc, ?_, zero_no_fault z, rfl⟩
+  obtain ⟨store, marked, gpc, apc, nextId, mustGo⟩ := s
+  have h1 := z.store; have h2 := z.gpc
+  simp only at h1 h2; subst h1 h2
+  simp only [step, Store.tryReserve_new_zero]
+
+/-- **exact capacity accounting.**  In every reachable state of a storage of any capacity (0
+    included) the reported count (`ResourceController::len`) equals
     reserved-not-yet-pushed + waiting-in-the-new-ring + alive-in-the-arena + marked-not-yet-removed,
     it never exceeds the capacity, and a creation attempt (`try_reserve`) succeeds — raising the
     count by one — exactly when the count is below the capacity; at capacity it returns the limit
     error and changes nothing.  It never panics. -/
-theorem C08_capacity_exact {ar : Bool} {cap : Nat} (hc : 0 < cap) {s : St} (h : Reachable ar cap s) :
+theorem C08_capacity_exact {ar : Bool} {cap : Nat} {s : St} (h : Reachable ar cap s) :
     s.store.len = s.held.length + s.store.newRing.items.length + s.alive + s.doomed
     ∧ s.store.len ≤ cap
     ∧ (s.gpc = .idle →
         (s.store.len < cap → ∃ k s', step ar s .gReserve = some (.ok s') ∧ s'.gpc = .reserved k
             ∧ s'.store.len = s.store.len + 1)
         ∧ (s.store.len = cap → step ar s .gReserve = some (.ok s))) := by
+  rcases Nat.eq_zero_or_pos cap with rfl | hc
+  · obtain ⟨hst, hlen, hg, hres, _, _⟩ := C08_capacity_zero_limit h
+    refine ⟨?_, by omega, fun _ => ⟨fun hlt => by omega, fun _ => hres⟩⟩
+    simp only [St.held, hg, St.alive, St.doomed, hst]
+    rfl
   have inv := inv_reachable hc h
   have wf := inv.wf
   have hoc := wf.ownCount
@@ -61,22 +84,17 @@ theorem C08_capacity_exact {ar : Bool} {cap : Nat} (hc : 0 < cap) {s : St} (h : 
         refine ⟨fun _ => ⟨k, { s with store := st, gpc := .reserved k }, by simp only [step, hr]; rw [hg], rfl, by simpa [Store.len] using hlen⟩, fun he => ?_⟩
         simp only [Store.len] at he; omega
 
-/-- **capacity 0 panics (finding).**  The hypothesis `0 < cap` above is forced: with capacity 0 the
-    very first `try_reserve` indexes slot 0 of an empty slot vector (atomic-arena's
-    `first_free_slot_index` starts at 0 whatever the capacity) — a panic, not the limit error. -/
-theorem C08_capacity_zero_panics (ar : Bool) :
-    step ar (init 0) .gReserve = some (.error .indexOOB)
-    ∧ (Store.new 0 : Store Nat).tryReserve = .error .indexOOB := ⟨rfl, rfl⟩
-
 /-- **the new-resource ring can never be full, and nothing else panics either** — at the
     granularity of the code.  In every reachable state the only step that can panic is the audio
     thread's push onto the *unused* ring; in particular "new resource producer full", the
     `expect("error inserting resource")` of the insert loop, the arena's "iterator should not
     encounter a free slot" and `try_reserve` are unreachable under every interleaving. -/
-theorem C08_queue_bounds_new {ar : Bool} {cap : Nat} (hc : 0 < cap) {s : St} (h : Reachable ar cap s)
+theorem C08_queue_bounds_new {ar : Bool} {cap : Nat} {s : St} (h : Reachable ar cap s)
     (l : Label) (e : SFault) (hs : step ar s l = some (.error e)) :
-    ar = false ∧ l = .aPushUnused ∧ e = .queueFull :=
-  no_fault (inv_reachable hc h) hs
+    ar = false ∧ l = .aPushUnused ∧ e = .queueFull := by
+  rcases Nat.eq_zero_or_pos cap with rfl | hc
+  · exact absurd hs (zero_no_fault (zero_reachable h) l e)
+  · exact no_fault (inv_reachable hc h) hs
 
 /-- **the full statement of `C08_queue_bounds` is false of the code (finding).**  At the code's
     granularity there is an interleaving — every label enabled, no step skipped — after which the
@@ -297,6 +315,24 @@ theorem C08_selfref_keys {τ : Type} {cap : Nat} (hc : 0 < cap) (dummy : τ) :
   · intro f
     obtain ⟨ss', vs, h1, h2, h3, _, h5, h6, h7⟩ := SelfStore.swf_forEach f h
     exact ⟨ss', vs, h1, h2, h3, h5, h6, h7⟩
+
+/-- **a failed play does not consume capacity.**  `play` (main track, sub-track, spatial track) calls
+    `SoundData::into_sound()` before it touches the track's sound storage: when that fails the result
+    is `IntoSoundError` and the storage — controller (hence the reported count and the free slots),
+    arena and both rings — is exactly what it was, so no sequence of failed plays can ever make a
+    later play hit the limit; when it succeeds, `play` is `insert` (reserve + drain + push), whose
+    accounting is `C08_capacity_exact`. -/
+theorem C08_failed_play_no_leak {τ : Type} (s : Store τ) :
+    s.play none = .ok (.intoSoundError, s)
+    ∧ (∀ n : Nat, s.failedPlays n = .ok s)
+    ∧ (∀ x, s.play (some x) = match s.insert x with
+        | .error e => .error e
+        | .ok (none, s1) => .ok (.limit, s1)
+        | .ok (some k, s1) => .ok (.ok k, s1)) := by
+  refine ⟨rfl, fun n => ?_, fun _ => rfl⟩
+  induction n with
+  | zero => rfl
+  | succ n ih => simpa [Store.failedPlays, Store.play] using ih
 
 /-! ### non-vacuity -/
 
